@@ -78,6 +78,18 @@ var _ uuid.UUID
 //@ set notified = notified + 1
 //@ set outcome = $arg2
 //@ end
+//@ at call Hnsw).RandomLevel
+//@ requires [C04 apply-is-deterministic] false
+//@ end
+//@ at call time.Now
+//@ requires [C04 apply-is-deterministic] false
+//@ end
+//@ at call rand.Float32
+//@ requires [C04 apply-is-deterministic] false
+//@ end
+//@ at call rand.Intn
+//@ requires [C04 apply-is-deterministic] false
+//@ end
 //@ requires [wf] pwf(this)
 //@ requires [level] level >= 0 && level < 2147483648
 //@ ensures [C12 outcome-type] isnil(outcome) || implements(outcome, error)
@@ -98,6 +110,18 @@ var _ uuid.UUID
 //@ set notified = notified + 1
 //@ set outcome = $arg2
 //@ end
+//@ at call Hnsw).RandomLevel
+//@ requires [C04 apply-is-deterministic] false
+//@ end
+//@ at call time.Now
+//@ requires [C04 apply-is-deterministic] false
+//@ end
+//@ at call rand.Float32
+//@ requires [C04 apply-is-deterministic] false
+//@ end
+//@ at call rand.Intn
+//@ requires [C04 apply-is-deterministic] false
+//@ end
 //@ requires [wf] pwf(this)
 //@ ensures [C12 outcome-type] isnil(outcome) || implements(outcome, error)
 //@ ensures [notify-once] notified == 1
@@ -117,6 +141,18 @@ var _ uuid.UUID
 //@ at call Notificator).Notify
 //@ set notified = notified + 1
 //@ set outcome = $arg2
+//@ end
+//@ at call Hnsw).RandomLevel
+//@ requires [C04 apply-is-deterministic] false
+//@ end
+//@ at call time.Now
+//@ requires [C04 apply-is-deterministic] false
+//@ end
+//@ at call rand.Float32
+//@ requires [C04 apply-is-deterministic] false
+//@ end
+//@ at call rand.Intn
+//@ requires [C04 apply-is-deterministic] false
 //@ end
 //@ requires [wf] pwf(this)
 //@ requires [own-map] metadata != nil ==> forall v *index.hnswVertex :: v.metadata != metadata
@@ -184,6 +220,18 @@ var _ uuid.UUID
 //@ set notified = notified + 1
 //@ set outcome = $arg2
 //@ end
+//@ at call Hnsw).RandomLevel
+//@ requires [C04 apply-is-deterministic] false
+//@ end
+//@ at call time.Now
+//@ requires [C04 apply-is-deterministic] false
+//@ end
+//@ at call rand.Float32
+//@ requires [C04 apply-is-deterministic] false
+//@ end
+//@ at call rand.Intn
+//@ requires [C04 apply-is-deterministic] false
+//@ end
 //@ requires [wf] pwf(this)
 //@ requires [wellformed] wfItems(items)
 //@ requires [levels] forall i int :: 0 <= i && i < len(items) ==> items[i].Level >= 0
@@ -217,6 +265,18 @@ var _ uuid.UUID
 //@ set notified = notified + 1
 //@ set outcome = $arg2
 //@ end
+//@ at call Hnsw).RandomLevel
+//@ requires [C04 apply-is-deterministic] false
+//@ end
+//@ at call time.Now
+//@ requires [C04 apply-is-deterministic] false
+//@ end
+//@ at call rand.Float32
+//@ requires [C04 apply-is-deterministic] false
+//@ end
+//@ at call rand.Intn
+//@ requires [C04 apply-is-deterministic] false
+//@ end
 //@ requires [wf] pwf(this)
 //@ requires [wellformed] wfItems(items)
 //@ ensures [notify-once] notified == 1 && istype(outcome, partitionBatchResult)
@@ -245,6 +305,18 @@ var _ uuid.UUID
 //@ at call Notificator).Notify
 //@ set notified = notified + 1
 //@ set outcome = $arg2
+//@ end
+//@ at call Hnsw).RandomLevel
+//@ requires [C04 apply-is-deterministic] false
+//@ end
+//@ at call time.Now
+//@ requires [C04 apply-is-deterministic] false
+//@ end
+//@ at call rand.Float32
+//@ requires [C04 apply-is-deterministic] false
+//@ end
+//@ at call rand.Intn
+//@ requires [C04 apply-is-deterministic] false
 //@ end
 //@ requires [wf] pwf(this)
 //@ requires [wellformed] wfItems(items)
@@ -288,6 +360,7 @@ var _ uuid.UUID
 //@ set decoded = ite(isnil($ret0), 1, 0)
 //@ end
 //@ at call partition).insertValue
+//@ requires [C04 level-from-entry] $arg5 == change.Level
 //@ set notified = notified + 1
 //@ end
 //@ at call partition).updateValue
@@ -304,6 +377,18 @@ var _ uuid.UUID
 //@ end
 //@ at call partition).batchDeleteValue
 //@ set notified = notified + 1
+//@ end
+//@ at call Hnsw).RandomLevel
+//@ requires [C04 apply-is-deterministic] false
+//@ end
+//@ at call time.Now
+//@ requires [C04 apply-is-deterministic] false
+//@ end
+//@ at call rand.Float32
+//@ requires [C04 apply-is-deterministic] false
+//@ end
+//@ at call rand.Intn
+//@ requires [C04 apply-is-deterministic] false
 //@ end
 //@ requires [wf] pwf(this)
 //@ ensures [never-fails] decoded == 1 ==> isnil(ret)
